@@ -16,8 +16,10 @@ from ..fakeserial import EBB3Board, FakePort, Profile, QUIET
 
 PROPERTY = "C04"
 
-EXC_KINDS = ("SerialException", "SerialTimeoutException", "PortNotOpenError", "OSError")
-# (what pyserial back ends raise; RuntimeError is not among them)
+EXC_KINDS = ("SerialException", "SerialTimeoutException", "PortNotOpenError", "OSError",
+             "RuntimeError")
+# (what pyserial back ends raise, plus RuntimeError, which the library's own except clauses
+# name among the serial I/O exceptions)
 FAULTS = Profile(write_exc=EXC_KINDS, read_exc=EXC_KINDS,
                  latency=(0, 1, 26), content=("err", "nameerr", "wrong"), silent=True,
                  read_window=2)
@@ -336,7 +338,7 @@ def run(ctx):
         "exhaustive": True,
     }
     assumptions = [
-        "environment alphabet per I/O point: write raises (SerialException, SerialTimeoutException, PortNotOpenError, OSError), board "
+        "environment alphabet per I/O point: write raises (SerialException, SerialTimeoutException, PortNotOpenError, OSError, RuntimeError), board "
         "silent, reply late (1 or 26 empty reads), device error line, name+error line, wrong-name "
         "line, read raises at the first two reads of each request",
         "a blocked method that performs no I/O meets no choice point, so running blocked "
